@@ -283,6 +283,105 @@ fn scenario(cfg: &RunCfg, saturate: bool) -> Outcome {
     }
 }
 
+/// The process stays out of file descriptors: every accept fails (the pending connection
+/// stays in the backlog) and the loop backs off 500 ms of virtual time each time. A
+/// revocation must still stop the server within a bounded (virtual) time.
+fn accept_failing(cfg: &RunCfg) -> Outcome {
+    let max_conns = 1 + gen::below(3) as usize;
+    let scfg = ServerCfg { max_conns, small_body_len: 64, cache_dir: None, with_permit: true };
+    let mut eng = match Engine::start(scfg) {
+        Ok(e) => e,
+        Err(e) => return Outcome { harness_error: Some(e), ..Default::default() },
+    };
+    eng.weights.extra = 3;
+    eng.step_cap = 40_000;
+    // some served connections first, then the descriptor shortage begins
+    let served = gen::below(max_conns as u32 + 1) as usize;
+    for c in 0..served {
+        let path = format!("/ok{c}");
+        handler::set_plan(&path, Plan { on_pending: OnPending::Respond, on_ready: OnReady::Respond, resp: RespSpec { code: 200, body_len: 2, body_seed: 1, ctype: 1, headers: vec![] } });
+        let mut ops = vec![Op::Connect, Op::Send(format!("GET {path} HTTP/1.1\r\n\r\n").into_bytes()), Op::AwaitFinal(1)];
+        if gen::ratio(1, 2) {
+            ops.push(Op::Fin);
+        }
+        eng.add_client(Client::new(ops, Frag::Whole));
+    }
+    struct Shortage {
+        steps: u64,
+        shortage_at: u64,
+        revoke_at: u64,
+        started: bool,
+        revoked_ns: Option<u64>,
+        stopped_ns: Option<u64>,
+    }
+    impl Extras for Shortage {
+        fn enabled(&mut self, eng: &Engine) -> Vec<u32> {
+            let mut v = Vec::new();
+            if !self.started && self.steps >= self.shortage_at {
+                v.push(0);
+            }
+            if self.started && eng.permit.is_some() && self.steps >= self.revoke_at {
+                v.push(1);
+            }
+            v
+        }
+        fn step(&mut self, eng: &mut Engine, id: u32) {
+            if id == 0 {
+                self.started = true;
+                with(|w| {
+                    w.net.accept_always_emfile = true;
+                    w.note("descriptor shortage begins: every accept fails with EMFILE");
+                });
+                // a connection that will sit in the backlog
+                eng.add_client(Client::new(vec![Op::Connect, Op::Send(b"GET /waiting HTTP/1.1\r\n\r\n".to_vec())], Frag::Whole));
+            } else {
+                eng.revoke();
+                self.revoked_ns = Some(with(|w| w.now_ns));
+                gen::count("probe.revoked_during_accept_failures");
+            }
+        }
+        fn after_step(&mut self, eng: &mut Engine, _act: Act) -> Option<Violation> {
+            self.steps += 1;
+            if self.stopped_ns.is_none() && eng.stopped_at.is_some() {
+                self.stopped_ns = Some(with(|w| w.now_ns));
+            }
+            None
+        }
+    }
+    let mut ex = Shortage { steps: 0, shortage_at: u64::from(gen::below(60)), revoke_at: u64::from(gen::below(200)), started: false, revoked_ns: None, stopped_ns: None };
+    eng.run(&mut ex);
+    if !ex.started {
+        ex.shortage_at = 0;
+        eng.run(&mut ex);
+    }
+    if eng.permit.is_some() {
+        ex.revoke_at = 0;
+        eng.run(&mut ex);
+    }
+    if let Some(p) = eng.sut_panics().first() {
+        return Outcome::fail("C13.no_task_panic", p.clone());
+    }
+    if eng.hit_cap && eng.stopped_at.is_none() {
+        return Outcome::fail(
+            "C13.stops_within_bounded_time",
+            format!("permit revoked while accept keeps failing (EMFILE): after {} further scheduler steps and {:.0} s of virtual time the server still has not stopped", eng.step_cap, (with(|w| w.now_ns) - ex.revoked_ns.unwrap_or(0)) as f64 / 1e9),
+        );
+    }
+    if eng.stopped_at.is_none() {
+        return Outcome::fail("C13.stopped_signal_delivered", "permit revoked during a descriptor shortage, system quiescent, no stopped signal".to_string());
+    }
+    if let (Some(r), Some(s)) = (ex.revoked_ns, ex.stopped_ns) {
+        // generous: the back-off between accept attempts is 500 ms
+        if s.saturating_sub(r) > 10_000_000_000 {
+            return Outcome::fail("C13.stops_within_bounded_time", format!("the stopped signal came {:.1} s (virtual) after the revocation", (s - r) as f64 / 1e9));
+        }
+    }
+    if with(|w| w.net.listeners.contains_key(&eng.port)) {
+        return Outcome::fail("C13.listener_released_first", "stopped signal delivered while the listening socket is still bound".to_string());
+    }
+    Outcome { nontrivial: true, sample: if cfg.index < 1 { Some(json!({"max_conns": max_conns, "served_first": served, "shortage_at_step": ex.shortage_at, "revoke_at_step": ex.revoke_at})) } else { None }, ..Default::default() }
+}
+
 fn mixed(cfg: &RunCfg) -> Outcome {
     scenario(cfg, false)
 }
@@ -294,12 +393,13 @@ pub fn spec() -> PropertySpec {
     PropertySpec {
         id: "C13",
         level: "exploration",
-        rule: "Each run: the real server with a revocable permit and max_conns 1-3; 0..max_conns+1 simulated clients in mixed phases (never connected, idle keep-alive, head or body partially sent, handler running, response being read slowly) that never close by themselves; the revocation is one more scheduler action whose earliest step is drawn from the tape, so it lands at every await point of the accept loop and connection tasks; connects after the stopped signal. Verdicts by quiescence (nothing runnable, nothing in flight, no timer), never by timeout. Non-trivial = at least one client; distinct = distinct schedule hash.",
+        rule: "Each run: the real server with a revocable permit and max_conns 1-3; 0..max_conns+1 simulated clients in mixed phases (never connected, idle keep-alive, head or body partially sent, handler running, response being read slowly) that never close by themselves; the revocation is one more scheduler action whose earliest step is drawn from the tape, so it lands at every await point of the accept loop and connection tasks; connects after the stopped signal; a stage in which every accept fails with EMFILE from some step on (the loop backs off 500 ms of virtual time per attempt) and the revocation must still stop the server within 10 virtual seconds. Verdicts by quiescence (nothing runnable, nothing in flight, no timer), never by timeout. Non-trivial = at least one client; distinct = distinct schedule hash.",
         scenarios: vec![
             Scenario { name: "c13.mixed", property: "C13", func: mixed, runs_quick: 400_000, runs_thorough: 10_000_000, doc: "mixed phases" },
+            Scenario { name: "c13.accept_failing", property: "C13", func: accept_failing, runs_quick: 60_000, runs_thorough: 1_500_000, doc: "revocation while every accept fails with EMFILE (virtual 500 ms back-off)" },
             Scenario { name: "c13.saturated", property: "C13", func: saturated, runs_quick: 200_000, runs_thorough: 5_000_000, doc: "at least max_conns clients that stay connected: every slot is held when the permit is revoked" },
         ],
-        required_probes: vec!["probe.revoked", "probe.all_slots_held_at_quiescence", "probe.connect_after_stopped", "probe.request_served_after_revocation"],
+        required_probes: vec!["probe.revoked", "probe.all_slots_held_at_quiescence", "probe.connect_after_stopped", "probe.request_served_after_revocation", "probe.revoked_during_accept_failures", "timer.sleep_for"],
         components: components_server(),
         assumptions: vec![
             "bounded time is judged as 'before quiescence', i.e. without any further external event",
